@@ -9,7 +9,7 @@ import sys
 ROOT = os.path.join(os.path.dirname(os.path.dirname(os.path.abspath(__file__))), "coq", "theories")
 
 
-STANDALONE = {"AckProofs", "LocksProofs", "LedgerProofs", "LedgerUpdProofs", "PoolProofs", "WindowProofs", "MicroProofs", "MicroStats", "MicroBound", "MicroBal", "MicroAll", "MicroProv", "PrecondProofs"}
+STANDALONE = {"AckProofs", "LocksProofs", "LedgerProofs", "LedgerUpdProofs", "PoolProofs", "WindowProofs", "MicroProofs", "MicroStats", "MicroBound", "MicroBal", "MicroAll", "MicroProv", "MicroLedger", "PrecondProofs"}
 
 
 def statements(modname):
@@ -92,7 +92,8 @@ spec("C17_precond", "The documented preconditions: what the builders accept is w
     ("PrecondProofs", "accepted_config_is_wf", None), ("PrecondProofs", "accepted_upsert_iff_valid", None), ("PrecondProofs", "accepted_put_weight_iff_valid", None),
 ])
 M = "MicroProofs"
-spec("C05_micro", "Accounting under every interleaving of the micro steps of puts, deletes and reads (calls split at every schedule point)", [M], [
+spec("C05_micro", "Accounting under every interleaving of the micro steps (calls, worker commands and shutdown() split at every schedule point)", [M, "MicroLedger"], [
+    ("MicroLedger", "micro_ledger_exact_all", None), ("MicroLedger", "micro_ids_fresh_all", None),
     (M, "mcall_atomic", None), (M, "mdelete_atomic", None), (M, "mput_atomic", None), (M, "minv_step", None), (M, "minv_run", None),
     (M, "micro_accounting_exact", None), (M, "racing_puts_one_wins", None), (M, "micro_schedule_refines", None),
 ])
@@ -109,8 +110,8 @@ spec("C07_micro", "put split at its schedule points: the race between two puts o
 spec("C08_micro", "put_or_update behind the flag check is Window.v's first half", [M], [
     (M, "mupsert_enter_is_half1", None),
 ])
-spec("C01_micro", "The bound on the total under every interleaving of the micro steps of puts, deletes and reads", [M, "MicroBound"], [
-    ("MicroBound", "micro_used_bounded_run", None), (M, "micro_accounting_exact", None), (M, "mput_atomic", None),
+spec("C01_micro", "The bound on the total under every interleaving of the micro steps", [M, "MicroBound", "MicroLedger"], [
+    ("MicroBound", "micro_used_bounded_run", None), ("MicroLedger", "micro_ledger_exact_all", None), (M, "micro_accounting_exact", None), (M, "mput_atomic", None),
 ])
 spec("C16_micro", "Key and weight balances at every state of every micro schedule, all windows included", [M, "MicroBal"], [
     ("MicroBal", "mbal_step", None), ("MicroBal", "micro_balances_run", None),
